@@ -1199,13 +1199,18 @@ impl<C: Config, Q: Query> Snapshot<C, Q> {
         mut self,
         mut backward_projection_lock_guard: BackwardProjectionLockGuard<C>,
     ) {
-        let mut tx = self.engine().new_write_transaction();
         let engine = self.engine().clone();
         let query_id = *self.query_id();
 
         self.upgrade_to_exclusive().await;
 
         async move {
+            // The write transaction must not be allocated before the
+            // (cancellable) lock upgrade above: a transaction that is dropped
+            // without being submitted panics and leaves a hole in the
+            // write-behind pipeline's batch sequence.
+            let mut tx = engine.new_write_transaction();
+
             engine
                 .computation_graph
                 .database
